@@ -1,0 +1,24 @@
+//go:build verif
+
+package interp
+
+// Contracts for property C11 (pieces fed to one interpreter behave like the whole program).
+// Checked by /verif/govc. Comments only.
+
+// The source name a piece is compiled under is the key of its file scope (imports are file-scoped:
+// scope key <pkg>/<base name of the source>).  A piece given without a name (Eval, Compile, the REPL)
+// continues the source evaluated before it, so that the imports of that source stay visible; a named
+// piece switches to its own name; the very first unnamed piece gets DefaultSourceName.  The parser
+// is given exactly that name.
+//@ trusted func (interp *Interpreter) parse(src, name, inc) (n, err)
+//@   requires [C11] parsed-under-current-source-name: name == interp.name
+//@ func (interp *Interpreter) compileSrc(src, name, inc) (p, err)
+//@   props C11
+//@   opt safety = off
+//@   opt opaque-calls = CompileAST
+//@   opt opaque-havoc = none
+//@   requires [assume] interp != nil
+//@   ensures unnamed-piece-continues-current-source: name == "" && old(interp.name) != "" ==> interp.name == old(interp.name)
+//@   ensures named-piece-switches-source: name != "" ==> interp.name == name
+//@   ensures first-unnamed-piece-gets-default-name: name == "" && old(interp.name) == "" ==> interp.name == DefaultSourceName
+//@   canary interp.name == name
